@@ -83,7 +83,12 @@ class Set(Container):
 
     def __str__(self) -> str:
         try:
-            return "{%s}" % ", ".join(map(str, self._value))  # This is recursive.
+            # The elements are sorted to make the representation independent of the hash seed and of the insertion order.
+            try:
+                ordered = sorted(self._value, key=lambda x: x.native_value)
+            except (AttributeError, TypeError):
+                ordered = sorted(self._value, key=str)
+            return "{%s}" % ", ".join(map(str, ordered))  # This is recursive.
         except (AttributeError, TypeError):  # pragma: no cover
             return "Set(UNINITIALIZED)"
 
